@@ -213,9 +213,11 @@ func runFull(r *simkit.Run, prop string) {
 	}
 	s.exp = exp
 	host := &simHost{ext: map[component.ID]component.Component{storageID: inc}}
-	if err := exp.Start(context.Background(), host); err != nil {
+	sctx, started := simkit.StartContext(tp)
+	if err := exp.Start(sctx, host); err != nil {
 		panic(err)
 	}
+	started()
 	r.Settle()
 
 	for step := 0; step < cfg.Steps && !r.Failed(); step++ {
